@@ -283,7 +283,7 @@ func begin(t *rapid.T, aspect, routine string, a model.Mat, act activated) *obs.
 }
 
 var adRoutines = []string{"inverse", "inverse(PositiveDefinite)", "inverse(UpperTriangular)", "gaussJordan solve", "backSubstitution",
-	"cholesky", "ldl", "ldl+forcepd", "gramSchmidt", "hessenberg", "svd", "eigensystem(symmetric)", "qrAlgorithm"}
+	"cholesky", "ldl", "ldl+forcepd", "gramSchmidt", "hessenberg", "svd", "eigensystem(symmetric)", "qrAlgorithm", "eigensystem(general)"}
 
 func TestC06_defining_eq_in_ad(t *testing.T) {
 	rapid.Check(t, func(t *rapid.T) {
@@ -306,6 +306,36 @@ func TestC06_defining_eq_in_ad(t *testing.T) {
 				s[i][i] = float64(i+1) + float64(rapid.IntRange(0, 4).Draw(t, "s"))/8
 			}
 			a = u.Mul(s).Mul(v.T())
+		case "eigensystem(general)":
+			// well separated eigenvalues, complex pairs included: an orthogonal similarity of a block
+			// upper triangular matrix with 1x1 blocks and 2x2 blocks [[a b] [-b a]], b != 0 (with repeated
+			// eigenvalues the rotations of the iteration are not differentiable and the derivatives it
+			// carries are unbounded)
+			if n < 2 {
+				n = 2
+			}
+			q := denseOrthogonal(t, "qg", n)
+			d := model.NewMat(n, n)
+			for i := 0; i < n; {
+				re := float64(i+1) + float64(rapid.IntRange(0, 4).Draw(t, "re"))/8
+				if i+1 < n && rapid.Bool().Draw(t, "pair") {
+					im := float64(rapid.IntRange(2, 8).Draw(t, "im")) / 4
+					d[i][i], d[i+1][i+1] = re, re
+					d[i][i+1], d[i+1][i] = im, -im
+					i += 2
+				} else {
+					d[i][i] = re
+					i++
+				}
+			}
+			for i := 0; i < n; i++ {
+				for j := i + 1; j < n; j++ {
+					if d[i][j] == 0 && d[j][i] == 0 {
+						d[i][j] = float64(rapid.IntRange(-4, 4).Draw(t, "upg")) / 8
+					}
+				}
+			}
+			a = q.Mul(d).Mul(q.T())
 		case "qrAlgorithm", "hessenberg":
 			// real, well separated eigenvalues: symmetric-plus-small-perturbation
 			q := denseOrthogonal(t, "q", n)
@@ -523,6 +553,63 @@ func TestC06_defining_eq_in_ad(t *testing.T) {
 			check("U*S*V' = A (value and derivative seeds)", U.mul(S).mul(V.t()), A, U, S, V)
 			check("U'*U = I (zero derivatives)", U.t().mul(U), identityADM(n), U)
 			check("V'*V = I (zero derivatives)", V.t().mul(V), identityADM(n), V)
+		case "eigensystem(general)":
+			// eigenvalues of a general matrix with complex pairs (seed C06-5: the second member of a
+			// complex pair lost its derivatives)
+			var ev Vector
+			var err error
+			if !run(func() { ev, _, err = eigensystem.Run(act.m, qrAlgorithm.Epsilon{Value: 1.11e-16}) }) {
+				return
+			}
+			if err != nil {
+				// convergence of the Francis iteration is C05's subject (two recorded findings there)
+				c.Class("eigensystem(general) reported an error (not judged here)")
+				c.End()
+				return
+			}
+			sum, tr := NewReal64(0), NewReal64(0)
+			distinct := false
+			for i := 0; i < n; i++ {
+				sum.Add(sum, ev.ConstAt(i))
+				tr.Add(tr, act.m.ConstAt(i, i))
+				if i > 0 && ev.ConstAt(i).GetFloat64() == ev.ConstAt(i-1).GetFloat64() {
+					distinct = true
+				}
+			}
+			if distinct {
+				c.Class("eigensystem(general): two equal eigenvalue entries (complex pair)")
+			}
+			evm := make(adm, n)
+			for i := range evm {
+				evm[i] = []ConstScalar{ev.ConstAt(i).CloneConstScalar()}
+			}
+			// The trace identity itself is only counted: the derivatives the shifted QR iteration carries
+			// are inexact (gradient of the sum 0.952 instead of 1 on a well separated 4x4 — the recorded
+			// finding C06/iterative-routines-deflate-on-values-only), so a tolerance would either raise
+			// false alarms or hide real errors. Asserted instead, exactly: the two members of a complex
+			// pair are the same function (h11+h22)/2, so entries with the same value have the same
+			// gradient and Hessian, bit for bit.
+			g, h := scaleOf(nv, ord, evm, A, adm{{sum}}, adm{{tr}})
+			vs := 1 + model.FromMatrix(act.m).MaxAbs()
+			if sameAD("", adm{{sum}}, adm{{tr}}, nv, ord, vs, g, h) != "" {
+				c.Class("eigensystem(general): derivatives of the eigenvalue sum differ from those of the trace (counted, not asserted)")
+			}
+			for i := 1; i < n; i++ {
+				x, y := ev.ConstAt(i-1), ev.ConstAt(i)
+				if x.GetFloat64() != y.GetFloat64() {
+					continue
+				}
+				for k := 0; k < nv; k++ {
+					if x.GetDerivative(k) != y.GetDerivative(k) {
+						fail(fmt.Sprintf("eigenvalues %d and %d are the real part %v of one complex pair, but d/dx%d is %v for the first and %v for the second", i-1, i, x.GetFloat64(), k, x.GetDerivative(k), y.GetDerivative(k)))
+					}
+					for l := 0; ord >= 2 && l < nv; l++ {
+						if x.GetHessian(k, l) != y.GetHessian(k, l) {
+							fail(fmt.Sprintf("eigenvalues %d and %d are the real part %v of one complex pair, but d2/dx%ddx%d is %v for the first and %v for the second", i-1, i, x.GetFloat64(), k, l, x.GetHessian(k, l), y.GetHessian(k, l)))
+						}
+					}
+				}
+			}
 		case "eigensystem(symmetric)":
 			var ev Vector
 			var evec Matrix
